@@ -8,6 +8,7 @@ package service_test
 // itself (import cycle), hence the hook.
 
 import (
+	"fmt"
 	"os"
 
 	"github.com/icon-project/goloop/common/log"
@@ -47,6 +48,11 @@ func init() {
 			Parent: parent,
 			Height: blk.Height(),
 			Close:  node.Close,
+			PriceTx: func(price int64, ts int64) module.Transaction {
+				// governance-style transaction: world write lock, calls the chain
+				// SCORE's setStepPrice (default caller = governance address)
+				return test.NewTx().SetTimestamp(ts).Call("setStepPrice", map[string]string{"price": fmt.Sprintf("0x%x", price)})
+			},
 			WorldTx: func(tag string, ts int64) module.Transaction {
 				tg := tag
 				return test.NewTx().SetTimestamp(ts).SetVarTest(&tg)
